@@ -550,7 +550,10 @@ class Body:
         if k == "use":
             return self.term_of_operand(r["o"], depth, at)
         if k in ("ref", "rawptr"):
-            return ("ref", self.term_of_place(r["p"], depth, at))
+            inner = self.term_of_place(r["p"], depth, at)
+            if isinstance(inner, tuple) and inner[0] == "deref":
+                return inner[1]          # &*x == x (reborrow)
+            return ("ref", inner)
         if k == "cast":
             inner = self.term_of_operand(r["o"], depth, at)
             if r["kind"] in ("IntToInt",):
